@@ -163,6 +163,12 @@ func TestC07_Children(t *testing.T) {
 				seeds++
 			}
 			hist = append(hist, o)
+			if rapid.IntRange(0, 5).Draw(rt, "rejected-encode") == 0 {
+				// rejected sizes, including multiples of four outside 16..32
+				sz := rapid.SampledFrom([]int{0, 4, 8, 12, 36, 40, 64, 15, 33}).Draw(rt, "bad-size")
+				hist = append(hist, op{Kind: "encode", Lang: int64(implLang[gen.Lang().Draw(rt, "elang")]), Entropy: make([]byte, sz)})
+				hist = append(hist, op{Kind: "new", Lang: int64(implLang[gen.Lang().Draw(rt, "nlang")]), N: int64(rapid.SampledFrom([]int{0, 11, 13, 25, 27, 12}).Draw(rt, "cnt"))})
+			}
 		}
 		nt := rapid.IntRange(1, 4).Draw(rt, "tee-calls")
 		tee := make([]op, nt)
